@@ -218,6 +218,11 @@ def run(prog, tier, extra=None):
         res.add(Finding(R5, "C04.index-delete-neutral|anchors", "no store to RingItem.lc_pos found on the deletion path (anchor moved?)", ab.loc(0)))
     if len(inserts) < 2:
         res.add(Finding(R1, "C04.undo|anchors", "expected both insertions (block ring and Blockchain.blocks) in add_block, found %d" % len(inserts), ab.loc(0)))
+    # a candidate chain that fails the golden-ticket density rule has to be refused before anything is unwound: once winding has
+    # started, a failure runs into the recovery path, which cannot restore the old chain (the known finding above)
+    from ._include import include
+    include(res, prog, tier, extra, "c05", ["C05.gate"],
+            "a chain-level refusal (golden-ticket density) must come before the first unwind, in Blockchain::validate itself")
     res.explanation = (
         "Decides the insert/undo pairing of add_block: after the candidate block was put into the block ring and into Blockchain.blocks, no exit with FailedNotValid is "
         "reachable without passing a call whose callee removes it from both again. Necessary for 'stored blocks ... exactly as they were'. It does NOT decide termination of "
